@@ -104,6 +104,59 @@ Definition unit_ok (sp : uspell) (u : aunit) : bool :=
         | d :: ds' => decl_ok (nth_or_last (us_decls sp) i plain_dspell) d && go ds' (S i)
         end) (au_decls u) 0.
 
+(* the region a disagreement between FORD's report and the Spec lies in: every variable that is
+   reported differently is attributed to the declaration that declares it (the result variable of a
+   typed prefix and the procedure attributes to the prefix).  [Uncovered] as soon as one of them lies
+   in no region; when the reports do not have the same shape (a garbled name, a missing variable)
+   no attribution is possible and the first region of the unit is taken. *)
+Inductive attribution := Shape | Uncovered | Covered (r : nat).   (* Covered 0: no difference *)
+
+Definition combine_attr (a b : attribution) : attribution :=
+  match a, b with
+  | Shape, _ | _, Shape => Shape
+  | Uncovered, _ | _, Uncovered => Uncovered
+  | Covered 0, x => x
+  | x, _ => x
+  end.
+
+Definition attr_of_region (r : nat) : attribution := match r with 0 => Uncovered | _ => Covered r end.
+
+Fixpoint vars_attr (f : str -> nat) (exp got : list var) : attribution :=
+  match exp, got with
+  | [], [] => Covered 0
+  | e :: exp', g :: got' =>
+    combine_attr (if var_eqb e g then Covered 0
+                  else if negb (seqb (v_name e) (v_name g)) then Shape
+                  else attr_of_region (f (v_name e)))
+                 (vars_attr f exp' got')
+  | _, _ => Shape
+  end.
+
+Definition unit_violation_region (sp : uspell) (u : aunit) (out : iunit) : nat :=
+  match out with
+  | IUErr _ => unit_region sp u
+  | IUOk a args r vars =>
+    let e := spec_unit u in
+    let f := region_of_name sp u (au_decls u) 0 in
+    let pre := prefix_region sp u in
+    let ra := if list_eqb seqb (u_attribs e) a then Covered 0 else attr_of_region pre in
+    let rr := match u_retvar e, r with
+              | None, None => Covered 0
+              | Some x, Some y =>
+                if var_eqb x y then Covered 0
+                else match au_rettype u with
+                     | Some _ => attr_of_region pre
+                     | None => if seqb (v_name x) (v_name y) then attr_of_region (f (v_name x)) else Shape
+                     end
+              | _, _ => Shape
+              end in
+    match combine_attr ra (combine_attr rr (combine_attr (vars_attr f (u_args e) args) (vars_attr f (u_vars e) vars))) with
+    | Shape => unit_region sp u
+    | Uncovered => 0
+    | Covered r => r
+    end
+  end.
+
 Definition judge_uspec (c : ucase) : nat :=
   let u := uc_unit c in let sp := uc_sp c in
   let '(hd, body, en) := render_unit sp u in
@@ -118,4 +171,4 @@ Definition judge_uspec (c : ucase) : nat :=
     if is_unmodelled m then unmodelled_code
     else
       let ok := unit_match (Ok (spec_unit u)) (uc_out c) in
-      verdict (negb (unit_match m (uc_out c))) (negb ok) (if ok then 0 else unit_region sp u).
+      verdict (negb (unit_match m (uc_out c))) (negb ok) (if ok then 0 else unit_violation_region sp u (uc_out c)).
